@@ -1,20 +1,24 @@
 CFG = dict(
     prop="C12", level="proof", harness="c12",
     props_files=["theories/Props/C12.v"], corr_file="theories/Corr/C12.v", corr_module="Corr.C12",
-    groups={"infer": False, "linepos": False, "hull": False, "ps": False, "metapos": False},
-    show_fn={"infer": "model_infer", "linepos": "model_linepos", "hull": "model_hull", "ps": "model_ps", "metapos": "model_metapos"},
+    groups={"infer": False, "linepos": False, "hull": False, "ps": False, "metapos": False, "tflinepos": False, "tfmarker": False},
+    show_fn={"infer": "model_infer", "linepos": "model_linepos", "hull": "model_hull", "ps": "model_ps", "metapos": "model_metapos", "tflinepos": "model_tflinepos", "tfmarker": "model_tfmarker"},
     shard=150,
     design_ref="DESIGN.md 6.12; notes/C12.md",
     technique="Coq proofs about the position kernels (infer_next_position = line/col walk; get_line_pos_of_char_pos = line/col of the "
               "prefix; from_child_markers = hull; position_segments incl. the 'marker did not move' shortcut; the position bookkeeping "
               "of apply_fixes; contiguity of all leaf markers of root_parse's tree from lexer tiling) + correspondence of each Gallina "
               "kernel with the real function (recorded position_segments calls during real fixing, perturbed real trees, real markers) "
-              "+ direct structural checks on every parse tree and on every tree the fix loop rebuilds",
+              "+ direct structural checks on every parse tree and on every tree the fix loop rebuilds, also under a templater whose output "
+              "differs from its input (placeholder) and on generated bracket-structure inputs; the templated file's two newline tables "
+              "(TemplatedFile::new / get_line_pos_of_char_pos(p, source) / PositionMarker::new) are modelled (tf_new, tf_line_pos, marker_new) and tied",
     level_text="Closed Coq theorems for all inputs: C12_infer_next_spec/concat, C12_line_pos_of_spec, C12_hull_spec, C12_contiguous_hull, "
                "C12_position_segments_working/leaves (every leaf below the repositioned segments has the working line/col computed "
                "from the text before it, under the stated input invariant, shortcut included), C12_apply_fixes_invariant, C12_postfix "
                "(any fix batch whose new segments carry no marker keeps the invariant), C12_parse_leaves_contiguous (with C01 tiling "
-               "and the C02 well-formedness hypothesis). The grammar-dependent clauses (brackets match, nodes start/end with code, "
+               "and the C02 well-formedness hypothesis), C12_templated_file_line_pos / C12_marker_new_positions (a templated file answers with the "
+               "line/col computed from the text the source flag selects; a fresh marker sits at the line/col of its templated start in the "
+               "templated text). The grammar-dependent clauses (brackets match, nodes start/end with code, "
                "indent balance) are observed directly on every tree and monitored (blocking), not proved.",
     level_note="Trusted: Coq kernel; hand-written models tied by sampled correspondence; which segments a fix batch edits is an oracle "
                "(its contract H_edit_pre is monitored on every recorded position_segments call); rule bodies and the reflow engine are not "
@@ -26,10 +30,19 @@ CFG = dict(
          "every tree after every applied batch (FixEvent hook) must have leaf working positions equal to those computed from the rewritten "
          "text; every position_segments call is recorded, its input checked against the theorem's hypothesis, a sample replayed in Coq; "
          "(c) kernels: infer_next_position, get_line_pos_of_char_pos, from_child_markers on real markers, position_segments on randomly "
-         "perturbed children of real nodes, meta markers of apply vs get_point_pos_at_idx. "
+         "perturbed children of real nodes, meta markers of apply vs get_point_pos_at_idx; "
+         "(d) configurations: Linter::parse_string / lint_string(fix) under the placeholder templater (9 parameter styles; corpus files, rule "
+         "snippets and multi-line/non-ASCII skeletons with 1-4 tokens replaced by placeholders whose sample values are the original text, "
+         "longer, shorter, empty or multi-line, so that source and templated newline tables differ): all clauses against the templated "
+         "text, source slices ordered / inside the source / spelling the leaf in literal regions, source_position from the source text; "
+         "get_line_pos_of_char_pos(p, source) and PositionMarker::new on the real and on synthetic templated files vs tf_line_pos / marker_new; "
+         "(e) bracket structure: generated well-nested / crossed (two closers or openers of different kinds exchanged) / kind-changed / "
+         "dropped bracket bodies put into 21 statement skeletons (expression, list, subquery positions and the free-form bracketed regions "
+         "of the grammars) x 13 dialects and into the bracket pairs of corpus files. "
          "non-trivial = newline in raw / >= 3 children / a segment moved / >= 2 metas",
     assumptions=["the lexer's tokens tile the text (C01); inputs where the token text differs from the input are skipped and counted",
                  "H_WF_root_match of C02 for the parse-side theorem",
                  "H_edit_pre: segments handed to position_segments that still carry a marker are consistent below it (monitored on every recorded call, blocking)",
-                 "offsets and columns are bytes (the implementation's unit)"],
+                 "offsets and columns are bytes (the implementation's unit)",
+                 "under templating the source slices of leaves are not a tiling (every token of a replaced region claims the whole placeholder): they are checked to be ordered, inside the source, and to spell the leaf in literal regions"],
 )
